@@ -28,8 +28,11 @@ def run_property(prop, tier, root=None, quiet=False):
             print("ANALYSIS-ERROR property=%s no rules implemented" % prop)
             return 2
         mod.run(chk, ctx)
-        if tier == "thorough" and hasattr(mod, "thorough"):
-            mod.thorough(chk, ctx)
+        if tier == "thorough":
+            if hasattr(mod, "thorough"):
+                mod.thorough(chk, ctx)
+            from sa import selfval
+            selfval.run(chk, repo.root)
         return chk.finish(mod.EXPLANATION, mod.RULE_TEXT)
     except AnalysisError as e:
         print("ANALYSIS-ERROR property=%s %s" % (prop, e))
